@@ -74,6 +74,34 @@ def work(tasks, idx):
             res.count("chain:" + fmt)
             if len(res.samples) < 3:
                 res.samples.append({"fmt": fmt, "credential": choice, "authentications": n})
+        elif t[0] == "related":
+            # two credentials whose keys are related (same RSA modulus, different public exponent): each authenticates against
+            # its own returned key, in both orders, and neither against the other's
+            _, fmt, (ka, kb) = t
+            outs = {}
+            for nm, ch in (("a", ka), ("b", kb)):
+                out = register(fmt, ch, 7 if nm == "a" else 8)
+                if out is None or out[3]["k"] != "accept":
+                    res.nonblocking.append({"why": f"conformant {fmt} registration of {ch} rejected", "code": out and out[3]})
+                    outs = None
+                    break
+                outs[nm] = out
+            if not outs:
+                continue
+            for first, second in (("a", "b"), ("b", "a")):
+                for signer, stored in ((first, first), (first, second), (second, second), (second, first), (first, first)):
+                    req_s, code_st = outs[signer][0], outs[stored][3]
+                    a, ea, _ = faults.build_assertion(req_s.cred, counter=9, stored=0)
+                    ea["public_key"] = bytes.fromhex(code_st["record"]["credential_public_key"])
+                    code = cases.run_auth(a, ea)
+                    res.evaluations += 1
+                    tie.check(cases.auth_case(a, ea), code, label=["related", signer, stored])
+                    res.nontrivial.add(("related", ka, kb, first, signer, stored))
+                    if (code["k"] == "accept") != (signer == stored):
+                        res.violations.append({"why": f"related keys {ka} / {kb}: assertion signed by credential {signer} "
+                                                      f"{'accepted' if code['k'] == 'accept' else 'rejected'} against the stored key of {stored}: "
+                                                      f"{code.get('msg') or code.get('nonlib') or ''}",
+                                               "case": cases.auth_case(a, ea), "match": {"op": "related-keys", "signer": signer, "stored": stored}})
         else:
             _, pairs = t
             regs = {}
@@ -117,6 +145,10 @@ def run(ctx, res):
     pairs = [(p, q) for p in pool for q in pool if p != q and (p[1][0], p[1][1]) != (q[1][0], q[1][1])]
     for i in range(0, len(pairs), 40):
         tasks.append(("cross", pairs[i:i + 40]))
+    for fmt in ("none", "packed-self"):
+        tasks.append(("related", fmt, (("rsa", 0, core.RS256), ("rsa-same-n-small-e", 0, core.RS256))))
+        tasks.append(("related", fmt, (("rsa", 4, core.PS256), ("rsa-33bit-e", 0, core.PS256))))
+        tasks.append(("related", fmt, (("rsa", 5, core.RS384), ("rsa-64bit-e", 0, core.RS384))))
     work.driver_ok = ctx.driver_ok
     corr.merge(res, corr.parallel(work, tasks))
     res.rule = ("register (every format x credential algorithm) then authenticate k times with advancing counters using exactly the "
